@@ -5,7 +5,7 @@ from ..harness import Job, finding, model_of
 
 ID = 'C14'
 PROFILES = ['dev']
-BOUNDS = {'value kinds': 'all six, kind symbolic', 'numbers': 'all 2^64 doubles', 'booleans': 'both', 'strings': 'all strings (opaque z3 sequence; parse::<f64> uninterpreted but functional) and, in the *-short-strings jobs, every string of <= 2 characters over {1, space, x, -, .} with real number parsing',
+BOUNDS = {'value kinds': 'all six, kind symbolic', 'numbers': 'all 2^64 doubles', 'booleans': 'both', 'sharing': 'eq-shared jobs: the equality / ordering laws on a value and a copy of itself (shared Rc storage)', 'strings': 'all strings (opaque z3 sequence; parse::<f64> uninterpreted but functional) and, in the *-short-strings jobs, every string of <= 2 characters over {1, space, x, -, .} with real number parsing',
           'arrays': 'sequence length 0..=2 (thorough: 0..=3), elements lazily symbolic scalars (depth 1), dictionary part 0..=1 entries',
           'inc/dec': 'n in {1,2,3,16,2^20} (thorough: 1..=16, 1000, 2^20), x any integral double with |x| + n <= 2^53, and both booleans (a symbolic 64-bit n makes the FP query exceed 240 s in z3: measured)'}
 OUTSIDE = ['arrays longer than the bound or nested deeper than 1', 'dictionaries with more than one entry',
@@ -71,6 +71,31 @@ def h_eq(vm, mir, ka):
     # the public kernel agrees with the operator
     e = vm.run_fn(fn(mir, 'Val', 'equals'), [R(vm.clone_val(a)), R(vm.clone_val(b))])
     out.append(law_failed(vm, 'operator-eq-is-equals', as_bool_term(e) == as_bool_term(b1), a, b))
+    vm.witness = {'eq-done'}
+    return [x for x in out if x]
+
+
+def h_eq_shared(vm, mir, ka):
+    """the laws on a value and a *copy of itself* (derived Clone: strings and arrays share their Rc storage, as after
+    `let y be x` or for `x is x`): equality must not depend on whether two values happen to share storage"""
+    a = mk(vm, 'a', [ka])
+    vm.describe = describe_ab(vm, a, a, lambda m: {'shared': True})
+    out = []
+    r1, _ = fold_op(vm, mir, BINOPS.index('Eq'), a, [a]); r3, _ = fold_op(vm, mir, BINOPS.index('NotEq'), a, [a])
+    b1, b3 = result_bool(vm, r1), result_bool(vm, r3)
+    if b1 is None or b3 is None: out.append(finding('violation', 'eq-total', 'equality of a value with its copy returned an error', vm.describe(model_of(vm)), vm.notes)); return out
+    sh = lambda m: {'shared': True}
+    out.append(law_failed(vm, 'noteq-is-negation', as_bool_term(b3) == z3.Not(as_bool_term(b1)), a, a, sh))
+    e = vm.run_fn(fn(mir, 'Val', 'equals'), [R(vm.clone_val(a)), R(vm.clone_val(a))])
+    out.append(law_failed(vm, 'operator-eq-is-equals', as_bool_term(e) == as_bool_term(b1), a, a, sh))
+    for lt, gt in (('LessEq', 'GreaterEq'), ('Less', 'Greater')):
+        rl, _ = fold_op(vm, mir, BINOPS.index(lt), a, [a]); rg, _ = fold_op(vm, mir, BINOPS.index(gt), a, [a])
+        bl, bg = result_bool(vm, rl), result_bool(vm, rg)
+        if (bl is None) != (bg is None): out.append(finding('violation', f'{lt}-error-iff-{gt}-error', 'one direction fails on a value and its copy', dict(vm.describe(model_of(vm)), law=f'{lt}-error-iff-{gt}-error'), vm.notes)); continue
+        if bl is None: continue
+        out.append(law_failed(vm, f'{lt}-mirrors-{gt}', as_bool_term(bl) == as_bool_term(bg), a, a, sh))
+        if lt == 'LessEq':
+            out.append(law_failed(vm, 'le-and-ge-is-eq', z3.And(as_bool_term(bl), as_bool_term(bg)) == as_bool_term(b1), a, a, sh))
     vm.witness = {'eq-done'}
     return [x for x in out if x]
 
@@ -265,6 +290,7 @@ def jobs(ctx, tier):
     for ka in range(6):
         w = 5 if ka == 5 else 1
         js.append(Job(f'eq/{KINDS[ka]}', h_eq, (mir, ka), witness=['eq-done'], weight=w))
+        js.append(Job(f'eq-shared/{KINDS[ka]}', h_eq_shared, (mir, ka), witness=['eq-done'], weight=w))
         js.append(Job(f'ord/{KINDS[ka]}', h_ord, (mir, ka), witness=(['ordered'] if ka in (0, 1, 3, 4) else []), weight=w))
         js.append(Job(f'logic/{KINDS[ka]}', h_logic, (mir, ka), witness=['logic-done'], weight=w))
         if ka in (1, 2, 3, 4):
@@ -313,8 +339,8 @@ def validate(ctx):
     return good, bad
 
 
-def native_bool(nat, op, a, b):
-    r = nat.call({'op': 'binop', 'operator': op, 'a': a, 'rhs': [b]})
+def native_bool(nat, op, a, b, shared=False):
+    r = nat.call({'op': 'binop', 'operator': op, 'a': a, 'rhs': [b], 'shared': bool(shared)})
     if 'val' in r and r['val']['kind'] == 'Boolean': return r['val']['v'], r
     return None, r
 
@@ -358,7 +384,7 @@ def replay(ctx, f):
     for prof in ('dev', 'release'):
         nat = ctx.native(prof); a, b = cex['a'], cex['b']
         viol = None
-        def B(op, x, y): return native_bool(nat, op, x, y)[0]
+        def B(op, x, y): return native_bool(nat, op, x, y, cex.get('shared'))[0]
         if law == 'eq-symmetric': viol = B('Eq', a, b) != B('Eq', b, a)
         elif law == 'noteq-is-negation': viol = B('NotEq', a, b) != (not B('Eq', a, b))
         elif law == 'operator-eq-is-equals': viol = B('Eq', a, b) != nat.call({'op': 'val', 'fn': 'equals', 'a': a, 'b': b}).get('bool')
